@@ -56,7 +56,7 @@ struct ObjOf : Obj {
   size_t get_size() override { nop::Serializer<LogWriter> s; return s.GetSize(h.get()); }
 
   int write(WriterBox& w) override {
-    T& obj = h.get();
+    const T& obj = h.get();   // values are written through a const reference (a const char[N] must stay an array, not become a C string)
     switch (w.kind) {
       case W_Log: return st(nop::Serializer<LogWriter*>(&w.log).Write(obj));
       case W_BLog: return st(nop::Serializer<nop::BoundedWriter<LogWriter>*>(&w.blog).Write(obj));
